@@ -308,6 +308,35 @@ impl Prop for C16 {
         let scratch = Scratch::new(&ctx.work_dir, "c16");
         let dir = scratch.path.as_path();
         let cfg = Cfg::sample_sane(&mut rng);
+        if idx % 64 == 5 {
+            // ---- many members that must make the exit status non-zero: the status is a yes/no answer
+            // however many inputs failed (counts around 256 and 512, where a byte-sized tally wraps)
+            let n = *rng.pick(&[255usize, 256, 256, 257, 512]);
+            let check_mode = rng.bool();
+            for i in 0..n {
+                let bytes: &[u8] = if check_mode { b"begin   x:=1;   end." } else { b"begin x := '\xff\xfe'; end." };
+                std::fs::write(dir.join(format!("m{i}.pas")), bytes).unwrap();
+            }
+            let mut a = cfg.to_cli_args();
+            if check_mode {
+                a.extend(["--mode".to_string(), "check".to_string()]);
+            }
+            a.push(".".into());
+            out.evals += 1;
+            out.count(&format!("many_failing.{n}.{}", if check_mode { "check" } else { "files" }));
+            let r = cli::run(Invocation { bin: &ctx.cli_bin, args: a.clone(), cwd: dir, stdin: None, env: vec![("RAYON_NUM_THREADS".into(), rng.pick(&[1usize, 4, 16]).to_string())], as_nobody: false });
+            if r.ok() {
+                out.violate(
+                    "C16",
+                    "exit-status-zero-despite-failures",
+                    format!("{n} {} in one invocation but the exit status is 0 (args {:?})", if check_mode { "files that are not formatted, --mode=check" } else { "undecodable files, files mode" }, a),
+                    "",
+                    Some(&cfg),
+                );
+            }
+            out.nontrivial.push(rng::hash_str(&format!("many{n}{check_mode}")));
+            return out;
+        }
         if idx % 8 == 3 {
             // recorded syscall log, checked offline
             strace_case(ctx, &mut rng, &mut out, dir);
